@@ -179,7 +179,9 @@ def free_line(draw):
 
 
 def case_st():
-    return st.one_of(accept_gemini(), accept_gemini(), accept_titan(), reject_line(), reject_line(), free_line())
+    base = st.one_of(accept_gemini(), accept_gemini(), accept_titan(), reject_line(), reject_line(), free_line())
+    # how the line reaches the server: one read, CR | LF, or a cut at a fraction of the line
+    return st.tuples(base, st.sampled_from([None, None, "crlf", 0.1, 0.5, 0.9, 0.999])).map(lambda t: {**t[0], "cut": t[1]})
 
 
 # --------------------------------------------------------------------------
@@ -202,7 +204,15 @@ def run_line(case: dict):
         tr = FakeTransport(loop)
         proto = GeminiServerProtocol(handler, mw, up)
         tr.attach(proto)
-        await srvsim.drive(sim, proto, tr, [data], [], False)
+        chunks = [data]
+        cut = case.get("cut")
+        if cut == "crlf" and case["crlf"]:
+            k = len(raw) + 1
+            chunks = [data[:k], data[k:]]
+        elif isinstance(cut, float):
+            k = max(1, min(len(data) - 1, int(len(raw) * cut)))
+            chunks = [data[:k], data[k:]] if len(data) > 1 else [data]
+        await srvsim.drive(sim, proto, tr, [c for c in chunks if c], [1], False)
         return sim, tr
 
     sim, tr = vloop.run(scenario)
@@ -309,6 +319,8 @@ def _labels(case, v):
     out.append("uploads-on" if case["uploads"] else "uploads-off")
     if case["cls"] == "free" and (v.info.get("h") or v.info.get("u")):
         out.append("free-invoked")
+    if case.get("cut") is not None:
+        out.append("cut:" + str(case["cut"]))
     n = len(s2b(case["line"]) if case.get("raw") else case["line"].encode()) + 2
     if 1016 <= n <= 1032:
         out.append(f"linelen:{n}")
@@ -365,4 +377,22 @@ LANES = [
         exhaustive=True,
         rule="every line length 1000..1040 x gemini/titan x CRLF on/off x uploads on/off (exhaustive)",
     ),
+]
+
+
+def _fz_decode(fdp):
+    uploads = fdp.ConsumeBool()
+    k = fdp.ConsumeIntInRange(0, 2)
+    raw = fdp.ConsumeBytes(fdp.remaining_bytes())
+    if k == 0:
+        raw = b"gemini://" + raw
+    elif k == 1:
+        raw = b"titan://" + raw
+    return {"cls": "free", "kind": "free", "line": b2s(raw), "crlf": True, "content": "", "labels": ["free"],
+            "uploads": uploads, "raw": True}
+
+
+FUZZ_LANES = [
+    {"name": "line-bytes", "lane": "lines", "decode": _fz_decode, "runs": {"thorough": 200000},
+     "seeds": [b"\x01\x00example.org/x", b"\x01\x01example.org/f;size=3\r\nabc", b"\x00\x02http://x/", b"\x01\x00u@h/#f"]},
 ]
